@@ -283,7 +283,7 @@ func run(c *vf.Ctx) {
 				}
 				nAligned, nRandom := 1, 1
 				if !c.Quick() {
-					nAligned, nRandom = len(aligned), 20
+					nAligned, nRandom = min(len(aligned), 16), 6
 				}
 				r.Shuffle(len(aligned), func(i, j int) { aligned[i], aligned[j] = aligned[j], aligned[i] })
 				for _, o := range aligned[:min(nAligned, len(aligned))] {
@@ -306,12 +306,12 @@ func run(c *vf.Ctx) {
 				for _, t := range truncs {
 					if t >= 0 && t < n {
 						cr := corruption{File: f.rel, Kind: "truncate", N: t, Tag: f.class + ":truncate"}
-						addAll(cr, !c.Quick())
+						addAll(cr, false)
 						nodeCands = append(nodeCands, cr)
 					}
 				}
 				for _, e := range exts {
-					addAll(corruption{File: f.rel, Kind: "extend", N: e, Bit: r.IntN(256), Tag: f.class + ":extend"}, !c.Quick())
+					addAll(corruption{File: f.rel, Kind: "extend", N: e, Bit: r.IntN(256), Tag: f.class + ":extend"}, false)
 				}
 				continue
 			}
@@ -357,7 +357,7 @@ func run(c *vf.Ctx) {
 			}
 			if c.Quick() {
 				r.Shuffle(len(pos), func(i, j int) { pos[i], pos[j] = pos[j], pos[i] })
-				pos = pos[:min(2, len(pos))]
+				pos = pos[:min(1, len(pos))]
 			}
 			for _, p := range pos {
 				addAll(corruption{File: f.rel, Kind: "flip", Off: p, Bit: r.IntN(8), Tag: f.class + ":byte-flip"}, false)
@@ -365,7 +365,7 @@ func run(c *vf.Ctx) {
 		}
 		// real node start: "present when a node starts" — cold only
 		r.Shuffle(len(nodeCands), func(i, j int) { nodeCands[i], nodeCands[j] = nodeCands[j], nodeCands[i] })
-		for _, cr := range nodeCands[:min(c.N(5, 40), len(nodeCands))] {
+		for _, cr := range nodeCands[:min(c.N(4, 40), len(nodeCands))] {
 			cases = append(cases, kase{st: si, timing: "cold", cr: cr, consumer: "node"})
 		}
 	}
@@ -476,6 +476,7 @@ func run(c *vf.Ctx) {
 			c.Count("handed_out_identical_bytes", 1)
 			if where == "nowhere" {
 				c.Count("not_detected_but_harmless", 1)
+				c.Count("harmless:"+k.timing+":"+k.cr.Tag, 1)
 			}
 		default:
 			c.Held(1)
@@ -490,7 +491,7 @@ func run(c *vf.Ctx) {
 		mu.Unlock()
 	}
 
-	par := c.N(6, 12)
+	par := snapgen.Par(c.N(4, 8))
 	ch := make(chan kase)
 	var wg sync.WaitGroup
 	for w := 0; w < par; w++ {
@@ -510,7 +511,7 @@ func run(c *vf.Ctx) {
 	}
 	close(ch)
 	wg.Wait()
-	c.Require(int64(c.N(120, 5000)), c.N(120, 5000))
+	c.Require(int64(c.N(120, 3000)), c.N(120, 3000))
 }
 
 func short(s string) string {
